@@ -62,10 +62,11 @@ pub open spec fn promo_ok(b: &BoardState, fr: int, fc: int, tr: int, promo: Opti
         None => !promotes,
     }
 }
-// s is exactly the position after moving (fr,fc)->(tr,tc) in b, promoting to s.pawn_promotion (C02); order_heuristic is a search hint and is not part of the position
-pub open spec fn succ_ok(b: &BoardState, s: &BoardState, fr: int, fc: int, tr: int, tc: int) -> bool {
+// the POSITION after moving (fr,fc)->(tr,tc) in b with promotion choice `promo`: placement, side to move, en-passant target,
+// both king squares, all four castling rights.  Shared by the generator (C02) and the text applier (C04).
+pub open spec fn pos_after(b: &BoardState, s: &BoardState, fr: int, fc: int, tr: int, tc: int, promo: Option<Piece>) -> bool {
     let p = piece_on(b, fr, fc);
-    &&& s.board == after_board(b, fr, fc, tr, tc, s.pawn_promotion)
+    &&& s.board == after_board(b, fr, fc, tr, tc, promo)
     &&& s.to_move == opp(b.to_move)
     &&& s.pawn_double_move == after_ep_target(b, fr, fc, tr, tc)
     &&& s.white_king_location == (if p == (Piece { kind: King, color: White }) { Point(tr as usize, tc as usize) } else { b.white_king_location })
@@ -74,6 +75,11 @@ pub open spec fn succ_ok(b: &BoardState, s: &BoardState, fr: int, fc: int, tr: i
     &&& s.white_queen_side_castle == after_right(b, CastlingType::WhiteQueenSide, fr, fc, tr, tc)
     &&& s.black_king_side_castle == after_right(b, CastlingType::BlackKingSide, fr, fc, tr, tc)
     &&& s.black_queen_side_castle == after_right(b, CastlingType::BlackQueenSide, fr, fc, tr, tc)
+}
+// s is exactly the position after moving (fr,fc)->(tr,tc) in b, promoting to s.pawn_promotion, and its descriptor names that
+// move and nothing else (C02); order_heuristic is a search hint and is not part of the position
+pub open spec fn succ_ok(b: &BoardState, s: &BoardState, fr: int, fc: int, tr: int, tc: int) -> bool {
+    &&& pos_after(b, s, fr, fc, tr, tc, s.pawn_promotion)
     &&& s.last_move == Some((Point(fr as usize, fc as usize), Point(tr as usize, tc as usize)))
     &&& promo_ok(b, fr, fc, tr, s.pawn_promotion)
 }
@@ -266,18 +272,23 @@ pub open spec fn may_castle(b: &BoardState, t: CastlingType) -> bool {
     && !attacked_by(b.board, by, r, if king_side(t) { 7 } else { 5 })  // not through an attacked square
     && !attacked_by(b.board, by, r, king_to(t))                        // not into an attacked square
 }
-// the position after castling: king two squares towards the rook, rook over the king, both rights of that colour gone
-pub open spec fn castle_succ_ok(b: &BoardState, s: &BoardState, t: CastlingType) -> bool {
+// the POSITION after castling: king two squares towards the rook, rook over the king, both rights of that colour gone
+pub open spec fn castle_pos_after(b: &BoardState, s: &BoardState, t: CastlingType) -> bool {
     let r = home_row(t); let c = right_color(t);
     let b1 = upd2(upd2(b.board, r, 6, Square::Empty), r, king_to(t), Square::Full(Piece { kind: King, color: c }));
     &&& s.board == upd2(upd2(b1, r, rook_from(t), Square::Empty), r, rook_to(t), Square::Full(Piece { kind: Rook, color: c }))
     &&& s.to_move == opp(b.to_move)
     &&& s.pawn_double_move is None
-    &&& s.last_move == Some((Point(r as usize, 6), Point(r as usize, king_to(t) as usize)))
-    &&& s.pawn_promotion is None
     &&& king_sq(s, c) == Point(r as usize, king_to(t) as usize) && king_sq(s, opp(c)) == king_sq(b, opp(c))
     &&& (if c == White { !s.white_king_side_castle && !s.white_queen_side_castle && s.black_king_side_castle == b.black_king_side_castle && s.black_queen_side_castle == b.black_queen_side_castle }
          else { !s.black_king_side_castle && !s.black_queen_side_castle && s.white_king_side_castle == b.white_king_side_castle && s.white_queen_side_castle == b.white_queen_side_castle })
+}
+// ... and the descriptor is the king's two-square move, without a promotion letter
+pub open spec fn castle_succ_ok(b: &BoardState, s: &BoardState, t: CastlingType) -> bool {
+    let r = home_row(t);
+    &&& castle_pos_after(b, s, t)
+    &&& s.last_move == Some((Point(r as usize, 6), Point(r as usize, king_to(t) as usize)))
+    &&& s.pawn_promotion is None
 }
 pub open spec fn castle_mv(t: CastlingType) -> Mv { (Point(home_row(t) as usize, 6), Point(home_row(t) as usize, king_to(t) as usize), None) }
 
